@@ -15,7 +15,8 @@ RULE = ("random controller projects (user tags of every kind, 0-3 programs with 
         "system-bit symbols, module I/O tags, aliases, UDTs nested <=3 with packed BOOLs on hidden hosts, arrays of structs, string types "
         "of capacity 1..4100, template ids inside and outside 0x100-0xEFF) are uploaded through open() / get_tag_list(None | '*' | program) "
         "under target-chosen symbol pagination {1,2,3,random,all} and template fragmentation {1..8,random,all}, firmware {16..32}; the "
-        "uploaded tags / data_types / info are compared field by field with the project model, every uploaded type class must decode "
+        "uploaded tags / data_types / info are compared field by field with the project model, get_tag_info(tag | tag[i].member.member[j]...) "
+        "must return the same definitions, every uploaded type class must decode "
         "the tag's memory image to the reference value, the same project uploaded under 3 different schedules must give identical "
         "tags_json, and json.dumps(tags_json) must work. distinct = (symbol kind | type shape, page mode, fragment mode, firmware class)")
 ASSUMPTIONS = [
@@ -24,6 +25,7 @@ ASSUMPTIONS = [
     "visible members = names not starting with ZZZZZZZZZZ or __",
 ]
 ANCHORS = [
+    ("pycomm3/logix_driver.py", "LogixDriver.get_tag_info"),
     ("pycomm3/logix_driver.py", "LogixDriver._get_instance_attribute_list_service"), ("pycomm3/logix_driver.py", "LogixDriver._parse_instance_attribute_list"),
     ("pycomm3/logix_driver.py", "LogixDriver._isolate_user_tags"), ("pycomm3/logix_driver.py", "LogixDriver._create_tag"),
     ("pycomm3/logix_driver.py", "LogixDriver._get_structure_makeup"), ("pycomm3/logix_driver.py", "LogixDriver._read_template"),
@@ -136,6 +138,25 @@ def check_upload(res, sc, drv, program_arg, keyp=""):
             res.violation(f"{keyp}tag-field:{diff_key(d)}", f"tag {name!r} ({t.dtype.name}{list(t.dims) or ''}, {sc.label}, pages {sc.dev.page_mode}, template fragments {sc.dev.tmpl_frag}): {d}",
                           dict(wit, tag=name))
             continue
+        # get_tag_info(): the documented accessor for the same definitions, by tag name and by member path
+        if hasattr(drv, "get_tag_info") and sc.rng.random() < 0.5:
+            idx = "[" + ",".join(str(sc.rng.randrange(n)) for n in t.dims) + "]" if t.dims and sc.rng.random() < 0.5 else ""
+            path, want_def, dt = name + idx, expected_tag(t, sc.fw), t.dtype
+            for _ in range(sc.rng.choice([0, 1, 1, 2, 3])):
+                if not dt.is_struct or not dt.members:
+                    break
+                m = sc.rng.choice(dt.members)
+                want_def = expected_type_def(dt)["internal_tags"][m.name]
+                path += "." + m.name + (f"[{sc.rng.randrange(m.array_len)}]" if m.array_len and sc.rng.random() < 0.5 else "")
+                if m.is_bit:
+                    break
+                dt = m.dtype
+            st, info = sc.b.call("get_tag_info", drv.get_tag_info, path)
+            res.ev()
+            res.seen("get_tag_info", path.count("."), "[" in path, bool(t.program))
+            d = f"raised {info!r:.120}" if st != "ok" else diff(want_def, info, "info")
+            if d:
+                res.violation(f"{keyp}get_tag_info:{'raises' if st != 'ok' else diff_key(d)}", f"get_tag_info({path!r}) ({sc.label}): {d}", dict(wit, tag=path))
         # the type class built from the upload must decode the controller's memory image of this tag
         tc = got[name].get("type_class")
         desc = t.dtype.desc()
